@@ -11,7 +11,7 @@ Every method below is one assumed pandas contract; anything not listed is Undeci
 import z3
 
 from . import sums
-from .values import ONE, ExcVal, Space, SubSpace, SymRaise, Undecided, V, _b, _or, fresh_name, ite, num, real, to_term
+from .values import only_kw, ONE, ExcVal, Space, SubSpace, SymRaise, Undecided, V, _b, _or, fresh_name, ite, num, real, to_term
 
 TRUSTED = []
 
@@ -525,6 +525,7 @@ def _provably_equal(interp, a, b):
 
 def _m_reset_index(self, interp):
     def reset_index(drop=False, inplace=False, **kw):
+        only_kw("frames.reset_index", kw)
         if isinstance(self.axis.root, KeySpace) and not drop:
             # groupby result: keys become columns (they already are, as key constants)
             _use("groupby(...).agg(...).reset_index(): key tuples become columns; one row per present group, sorted by key")
@@ -567,6 +568,7 @@ class ColumnIndex(list):
 
 def _m_drop(self, interp):
     def drop(labels=None, axis=0, columns=None, inplace=False, **kw):
+        only_kw("frames.drop", kw)
         names = columns if columns is not None else labels
         if columns is None and axis != 1:
             raise Undecided("DataFrame.drop of rows")
@@ -590,6 +592,7 @@ def _null(c):
 
 def _m_dropna(self, interp):
     def dropna(axis=0, how="any", subset=None, **kw):
+        only_kw("frames.dropna", kw)
         if axis != 0 or subset is None:
             raise Undecided("dropna without subset / along columns")
         _use("DataFrame.dropna(subset, how): row filter on null-ness of the listed columns")
@@ -608,6 +611,7 @@ def _m_dropna(self, interp):
 
 def _m_fillna(self, interp):
     def fillna(value=None, **kw):
+        only_kw("frames.fillna", kw)
         _use("DataFrame.fillna(v | {col: v}): nulls of the listed columns replaced, other cells unchanged")
         out = self._new()
         items = value.items() if isinstance(value, dict) else [(k, value) for k in self.cols]
@@ -630,6 +634,7 @@ def _m_fillna(self, interp):
 
 def _m_update(self, interp):
     def update(other, **kw):
+        only_kw("frames.update", kw)
         _use("DataFrame.update(other): cells overwritten by other's non-null cells (same rows)")
         if not isinstance(other, Frame) or not same_rows(other.axis, self.axis):
             raise Undecided("DataFrame.update with a frame over other rows")
@@ -661,6 +666,7 @@ def _m_isna(self, interp):
 
 def _m_any(self, interp):
     def any_(axis=0, **kw):
+        only_kw("frames.any_", kw)
         if axis != 1:
             raise Undecided("DataFrame.any along rows")
         cs = [self.col(k) for k in self.cols]
@@ -671,6 +677,7 @@ def _m_any(self, interp):
 
 def _m_all(self, interp):
     def all_(axis=0, **kw):
+        only_kw("frames.all_", kw)
         if axis != 1:
             raise Undecided("DataFrame.all along rows")
         cs = [self.col(k) for k in self.cols]
@@ -718,6 +725,7 @@ def _m_loc(self, interp):
 
 def _m_rename(self, interp):
     def rename(columns=None, **kw):
+        only_kw("frames.rename", kw)
         if columns is None:
             raise Undecided("rename without columns=")
         cols = {}
@@ -742,11 +750,18 @@ def _m_assign(self, interp):
 
 
 def _m_sort_values(self, interp):
-    def sort_values(by=None, **kw):
+    def sort_values(by=None, key=None, **kw):
+        only_kw("frames.sort_values", kw, ascending=(True,), inplace=(False,), ignore_index=(False,), na_position=("last",))
         by = [by] if isinstance(by, str) else list(by)
         for b in by:
             self.col(b)
         _use("DataFrame.sort_values(keys): same rows, ordered by the key tuple (stable); index labels travel with the rows")
+        if key is not None:
+            # ordered by a transformation of the keys: the same rows in SOME order that is not the order of the key tuple
+            # (nothing is assumed about it; whatever needs the two orders to agree becomes an obligation that fails)
+            node = getattr(key, "node", None)
+            tag = ("sorted_by_key_function", tuple(by), f"line {getattr(node, 'lineno', '?')}")
+            return self._new(RowAxis(self.axis.root, self.axis.doms, tag, sel=self.axis.sel), index=("labels", self.index))
         if len(self.axis.doms) > 1:
             # after sorting the segment structure is no longer positional: require key-disjoint segments
             new = RowAxis(self.axis.root, self.axis.doms, ("sorted", tuple(by)), sel=self.axis.sel)
@@ -760,6 +775,7 @@ def _m_sort_values(self, interp):
 
 def _m_sample(self, interp):
     def sample(n=None, frac=None, random_state=None, **kw):
+        only_kw("frames.sample", kw)
         if frac != 1 or kw:
             raise Undecided("DataFrame.sample other than frac=1")
         _use("DataFrame.sample(frac=1, random_state=s): a permutation of the rows that is a function of (number of rows, s) only")
@@ -774,6 +790,7 @@ def _m_sample(self, interp):
 
 def _m_drop_duplicates(self, interp):
     def drop_duplicates(subset=None, **kw):
+        only_kw("frames.drop_duplicates", kw)
         if subset is None or kw:
             raise Undecided("drop_duplicates without subset")
         subset = [subset] if isinstance(subset, str) else subset
@@ -799,6 +816,7 @@ def _m_merge(self, interp):
 
 
 def merge_frames(interp, left, right, how="inner", on=None, suffixes=("_x", "_y"), indicator=False, **kw):
+    only_kw("frames.merge_frames", kw)
     from . import levels
 
     if isinstance(right, levels.PartsFrame):
@@ -904,6 +922,7 @@ def merge_frames(interp, left, right, how="inner", on=None, suffixes=("_x", "_y"
 
 def _m_agg(self, interp):
     def agg(func=None, axis=0, *a2, **kw):
+        only_kw("frames.agg", kw)
         if a2:
             raise Undecided("DataFrame.agg extra positional arguments")
         pm = getattr(func, "pyvc_method", None)
@@ -990,6 +1009,7 @@ class TupleCol:
 
 def _m_groupby(self, interp):
     def groupby(by=None, **kw):
+        only_kw("frames.groupby", kw)
         if callable(by) and not isinstance(by, (list, tuple, str)):
             # groupby(function of the index label): only the constant function (everything in one group) is modelled
             r = by(V(self.axis.root.u))
@@ -1006,6 +1026,7 @@ def _m_groupby(self, interp):
 def _m_query(self, interp):
     def query(expr, **kw):
         """DataFrame.query for comparison expressions between a column and an @local / literal"""
+        only_kw("frames.query", kw)
         import ast as _ast
         import re
 
@@ -1054,6 +1075,7 @@ def _m_values(self, interp):
 
 def _m_mean(self, interp):
     def mean(axis=0, **kw):
+        only_kw("frames.mean", kw)
         if not self.cols:
             return EmptySeries()
         from . import colwise
@@ -1065,6 +1087,7 @@ def _m_mean(self, interp):
 
 def _m_std(self, interp):
     def std(axis=0, **kw):
+        only_kw("frames.std", kw)
         if not self.cols:
             return EmptySeries()
         raise Undecided("DataFrame.std of a non-empty frame")
@@ -1074,6 +1097,7 @@ def _m_std(self, interp):
 
 def _m_sum(self, interp):
     def sum_(axis=0, **kw):
+        only_kw("frames.sum_", kw)
         from . import colwise
 
         return colwise.frame_reduce(self, interp, "sum", axis)
@@ -1123,6 +1147,7 @@ def _m_index(self, interp):
 
 def _m_astype(self, interp):
     def astype(dtype=None, **kw):
+        only_kw("frames.astype", kw)
         if isinstance(dtype, dict) and all(v is float or getattr(v, '__name__', '') in ('float', 'py_float') for v in dtype.values()) and not kw:
             for k in dtype:
                 self.col(k)
@@ -1270,6 +1295,7 @@ class GroupBy:
         return out
 
     def sum(self, **kw):
+        only_kw("frames.sum", kw)
         _use("groupby(keys).sum(): one row per distinct non-null key tuple, numeric columns summed over the rows of the group (non-numeric columns: not modelled, A-OBJSUM)")
         f = self.frame
         ax = f.axis
@@ -1289,7 +1315,15 @@ class GroupBy:
                 cols[name] = Poison("groupby().sum() of a non-numeric column (A-OBJSUM)")
         return self._result(cols)
 
+    def pyvc_getitem(self, interp, key):
+        """groupby(keys)[col] / groupby(keys)[[cols]]: the same grouping restricted to the selected columns"""
+        if isinstance(key, str):
+            self.frame.col(key)
+            return GroupByCol(self, key)
+        raise Undecided("subscript on GroupBy other than one column name")
+
     def size(self, **kw):
+        only_kw("frames.size", kw)
         _use("groupby(keys).size(): number of rows per group")
         r = self._result({"size": lambda i: z3.IntVal(1)})
         return GroupSize(r)
@@ -1312,6 +1346,7 @@ class GroupBy:
     def apply(self, func, include_groups=True, **kw):
         """groupby(keys).apply(lambda x: pd.Series({...})): `func` is run ONCE on the view of the generic group (the rows
         whose key tuple is the generic group); every entry of the returned record must be a scalar"""
+        only_kw("frames.apply", kw)
         f = self.frame
         if len(f.axis.doms) != 1:
             raise Undecided("groupby.apply on a concatenated frame")
@@ -1391,11 +1426,23 @@ class SeriesRecord:
 
 def _series_ctor(interp):
     def Series(data=None, **kw):
+        only_kw("frames.Series", kw)
         if isinstance(data, dict) and not kw:
             return SeriesRecord(data)
         raise Undecided("pd.Series(...) form")
 
     return Series
+
+
+class GroupByCol:
+    """groupby(keys)[col]: only .sum() is modelled -- the Series of group sums of that column, indexed by the group keys"""
+
+    def __init__(self, gb, colname):
+        self.gb, self.colname = gb, colname
+
+    def sum(self, **kw):
+        only_kw("frames.GroupByCol.sum", kw)
+        return self.gb.sum().col(self.colname)
 
 
 class GroupSize:
@@ -1406,6 +1453,7 @@ class GroupSize:
         if name == "reset_index":
 
             def reset_index(drop=False, name=0, **kw):
+                only_kw("frames.reset_index", kw)
                 # an unnamed size() Series becomes column 0 (pandas), or `name` if given
                 f = self.frame._new(index=("range", self.frame.axis.name))
                 f.cols[name] = f.cols.pop("size")
@@ -1478,6 +1526,7 @@ def id_term(root):
 
 def pd_concat(interp):
     def concat(objs, axis=0, **kw):
+        only_kw("frames.concat", kw)
         objs = list(objs)
         if axis == 1:
             if not all(isinstance(o, Frame) for o in objs) or not all(same_rows(o.axis, objs[0].axis) or provably_same_rows(o.axis, objs[0].axis) for o in objs):
@@ -1709,6 +1758,7 @@ def frame_dummies(interp, df, columns=None, prefix=None, prefix_sep="_", dtype=N
     that OCCURS in it (values sorted, names prefix+sep+value), appended after the other columns.  The values range over a
     finite universe of names declared by the harness (interp.level_universe[col], plus 'other'); which of them occur is
     decided by branching, so the column set is concrete on every path.  Obligation: the universe covers the column."""
+    only_kw("frames.frame_dummies", kw)
     if kw or columns is None:
         raise Undecided("get_dummies form")
     columns = list(columns)
@@ -1751,6 +1801,7 @@ class PlainTable(dict):
 
 def _dataframe_ctor(interp):
     def DataFrame(data=None, **kw):
+        only_kw("frames.DataFrame", kw)
         if isinstance(data, Frame):
             return data._new()
         if isinstance(data, dict) and data and all(isinstance(v, V) and len(v.axes) == 1 for v in data.values()):
